@@ -29,7 +29,7 @@ OPTS = {"quick": {"timeout_ms": 8000, "job_budget_s": 40, "max_paths": 800}, "th
 SEEDS = list(range(1, 17))
 
 X, Y, Z = fam.X, fam.Y, fam.Z
-OPS = ["eval", "fwd", "rev_all", "diff_at_all", "diff_at_early_all", "diff_comp_at_early", "asexp_fwd", "asexp_rev", "norm", "repr"]
+OPS = ["barenum", "eval", "fwd", "rev_all", "diff_at_all", "diff_at_early_all", "diff_comp_at_early", "asexp_fwd", "asexp_rev", "norm", "repr"]
 
 
 def trees():
@@ -109,7 +109,7 @@ def observable(o):
     if type(v).__name__ == "Shown":
         return ("expr", repr(v))
     if isinstance(v, list):
-        return ("nums", tuple(sx.R(x).sexpr() if not isinstance(x, bool) else str(x) for x in v))
+        return ("nums", tuple((sx.R(x).sexpr() if not isinstance(x, (bool, str, type(None))) else str(x)) for x in v))
     return ("num", sx.R(v).sexpr())
 
 
